@@ -54,3 +54,28 @@ EQUIVALENTS += [
     e("eq-c03-allclose-atol-temp", ["C03"], R, "                atol = np.min(self.edges) * self.tolerance_factor", "                smallest = np.min(self.edges)\n                atol = self.tolerance_factor * smallest"),
     e("eq-c03-ufunc-at-swap", ["C03"], F, '        elif method == "at":', '        elif "at" == method:'),
 ]
+
+# round 2: condition rules must accept equivalent spellings
+EQUIVALENTS += [
+    e("eq-h5-subregions-truthy", ["C10", "C14"], H5, "if len(self.subregions) > 0:", "if self.subregions:"),
+    e("eq-h5-subregions-ne0", ["C10", "C14"], H5, "if len(self.subregions) > 0:", "if len(self.subregions) != 0:"),
+    e("eq-ovf-mode-flipped", ["C09"], OVF, '            if mode == "binary":\n                # OVF2 uses', '            if not mode != "binary":\n                # OVF2 uses'),
+    e("eq-vdims-setter-demorgan", ["C05"], F, "if len(self.vdim_mapping) > 0 and vdims is not None and old_vdims is not None:",
+      "if not (len(self.vdim_mapping) == 0 or vdims is None or old_vdims is None):"),
+    e("eq-mapping-setter-ge1", ["C05"], F, "elif len(vdim_mapping) > 0 and sorted(vdim_mapping) != sorted(self.vdims):",
+      "elif len(vdim_mapping) >= 1 and not sorted(vdim_mapping) == sorted(self.vdims):"),
+    e("eq-valid-setter-flipped", ["C08"], F, "        if valid is not None:\n            if isinstance(valid, str) and valid == \"norm\":\n                valid = ~np.isclose(self.norm.array, 0)\n        else:\n            valid = True",
+      "        if valid is None:\n            valid = True\n        elif isinstance(valid, str) and valid == \"norm\":\n            valid = ~np.isclose(self.norm.array, 0)"),
+    e("eq-region-rotate-ref-flipped", ["C12", "C13"], R, "        if reference_point is None:\n            reference_point = self.centre\n        elif not isinstance(reference_point, (tuple, list, np.ndarray)):",
+      "        if reference_point is None:\n            reference_point = self.center\n        elif not isinstance(reference_point, (list, tuple, np.ndarray)):"),
+    e("eq-translate-vector-len", ["C13"], R, "        elif len(vector) != self.ndim:\n            raise ValueError(\n                f\"Wrong length for array-like argument: {len(vector)}; expected length\"",
+      "        elif not len(vector) == self.ndim:\n            raise ValueError(\n                f\"Wrong length for array-like argument: {len(vector)}; expected length\""),
+    e("eq-fftn-labels-flipped", ["C11"], F, "            if ifftn:\n                new_vdims = [\n                    vdim[3:] if vdim.startswith(\"ft_\") else vdim for vdim in self.vdims\n                ]\n            else:\n                new_vdims = [f\"ft_{vdim}\" for vdim in self.vdims]",
+      "            if not ifftn:\n                new_vdims = [f\"ft_{vdim}\" for vdim in self.vdims]\n            else:\n                new_vdims = [\n                    vdim[3:] if vdim.startswith(\"ft_\") else vdim for vdim in self.vdims\n                ]"),
+    e("eq-tcd-method-flipped", ["C19"], T, '    elif method == "berg-luescher":\n        q = df.Field(field.mesh, nvdim=1, valid=of.valid)', '    elif not method != "berg-luescher":\n        q = df.Field(field.mesh, nvdim=1, valid=of.valid)'),
+    e("eq-c16-legacy-vectors-flipped", ["C16"], VTK, '        if "VECTORS" in content:\n            dim = 3\n            data_marker = "VECTORS"\n            skip = 0  # after how many lines data starts after marker\n        else:\n            dim = 1\n            data_marker = "SCALARS"\n            skip = 1',
+      '        if "VECTORS" not in content:\n            dim = 1\n            data_marker = "SCALARS"\n            skip = 1\n        else:\n            dim = 3\n            data_marker = "VECTORS"\n            skip = 0'),
+    e("eq-c17-name-guard", ["C17"], F, "        if not isinstance(name, str):\n            msg = \"Name argument must be a string.\"", "        if isinstance(name, str) is False or not isinstance(name, str):\n            msg = \"Name argument must be a string.\""),
+    e("eq-c20-filter-default-flipped", ["C20"], MPL, "        if filter_field is None:\n            filter_field = self.field._valid_as_field\n\n        self._filter_values(filter_field, values)\n\n        if symmetric_clim",
+      "        if not filter_field is not None:\n            filter_field = self.field._valid_as_field\n\n        self._filter_values(filter_field, values)\n\n        if symmetric_clim"),
+]
